@@ -18,18 +18,18 @@ CHECKS = {
  "C03": dict(tech="symbolic execution of real code on a symbolic scalar + SMT (QF_NRA)", engines=[R, K],
              text="On every full-rank path: each Jacobian block equals -(I-UU^T) W D_k c_s with U an orthonormal basis of range(W*Phi) (planted), is orthogonal to range(W*Phi); arbitrary derivative matrices D_k cover shared parameters. A failing derivative at any k gives None (concrete fact per path).", note=REAL + "; the gradient identity 2 J^T r = grad ||r||^2 follows from the Kaufman form and is not separately encoded"),
  "C04": dict(tech="symbolic execution of the MIR (EUF + fault Booleans) + Kani on the real LM driver + symbolic execution on a symbolic scalar", engines=[M, K, R],
-             text="fit() returns Ok exactly when was_successful(report) for an ARBITRARY optimizer (minimize uninterpreted), and in both cases the payload is FitResult{into_sequential(final problem), report} field by field (MIR, all paths, both overflow profiles). Through the REAL levenberg-marquardt driver (Kani, thorough tier): a failed evaluation gives Err(User) carrying the problem, a failing derivative gives Err(User), zero residuals give Ok. Through the REAL driver on the symbolic scalar (scenario symfit: affine model Phi(alpha)=A+sum alpha_k B_k with symbolic A,B_k, one basis function, real nalgebra SVD, patience 1..3 quick / 1..6 thorough, P<=2 quick / <=3 thorough, N<=5): on every explored path (100-1500 recorded decisions of optimizer and library) and for EVERY value of A, B_k, observations, weights, initial guess following it: Ok <=> successful termination; params() of the returned problem = reported alpha; its coefficients are the weighted least-squares optimum for that alpha (rank cases as premises), residuals = W y - W Phi(alpha) c, reported objective = 1/2||residuals||^2, and objective <= objective at the initial guess (solver proof over the whole path condition with squared norms abstracted); reported evaluations <= patience*(P+1) and model evaluations during fit <= patience*(P+1)+1 (counted on the path). Coherence after arbitrary update histories (A->B->A, rejected updates) is C01/C02/C10 on the core scenario.",
+             text="fit() returns Ok exactly when was_successful(report) for an ARBITRARY optimizer (minimize uninterpreted), and in both cases the payload is FitResult{into_sequential(final problem), report} field by field (MIR, all paths, both overflow profiles). Through the REAL levenberg-marquardt driver (Kani, thorough tier): a failed evaluation gives Err(User) carrying the problem, a failing derivative gives Err(User), zero residuals give Ok. Through the REAL driver on the symbolic scalar (scenario symfit: affine model Phi(alpha)=A+sum alpha_k B_k with symbolic A,B_k, one basis function, real nalgebra SVD, patience 1..3 quick / 1..6 thorough, P<=2 quick / <=3 thorough, N<=5; scenario symfit2: TWO basis functions, the model defined through its planted factors W Phi(alpha) = R01(alpha_0) R23(alpha_1) U0 diag(sigma) V0^T with rational rotations, planted afresh at every evaluation and the SVD's input proved equal to the planted product at every call; for the returned problem the whole obligation set of the core scenario -- C01 closed form per rank case, normal equations, C02 residuals, C03 Kaufman Jacobian -- at alpha-hat): on every explored path (100-1500 recorded decisions of optimizer and library) and for EVERY value of A, B_k, observations, weights, initial guess following it: Ok <=> successful termination; the returned problem has its state whenever the model never failed (Ok or Err); params() of the returned problem = reported alpha; its coefficients are the weighted least-squares optimum for that alpha (rank cases as premises), residuals = W y - W Phi(alpha) c, reported objective = 1/2||residuals||^2, and objective <= objective at the initial guess (solver proof over the whole path condition with squared norms abstracted); reported evaluations <= patience*(P+1) and model evaluations during fit <= patience*(P+1)+1 (counted on the path). Coherence after arbitrary update histories (A->B->A, rejected updates) is C01/C02/C10 on the core scenario.",
              note="The symfit clauses hold per explored path (a handful per tier, varied through budget, shape, weights and default values; decisions are not flipped), one basis function inside the loop, over the reals, divisors assumed non-zero in this scenario; equalities are proved on terms cut at generalisation points (sound for unsat; a sat over the abstraction is never reported, the obligation is then listed as undischarged). Outside: more basis functions inside the loop, longer budgets, IEEE effects. Native runs (supplementary) check the same facts on f64 fits incl. all 13 termination reasons."),
  "C08": dict(tech="Kani/CBMC over all IEEE-754 bit patterns with an SVD contract stub + symbolic execution of the MIR for integer panics + symbolic execution on a symbolic scalar for degenerate shapes", engines=[K, M, R],
              text="For ALL f64 bit patterns of a 2x2 basis matrix and of the weights, build() never hands a non-finite matrix to the SVD (whose documented failure modes are a panic for M>=2 and non-termination for M>=3) and returns a problem without residuals instead; no overflow/index/unwrap panic is reachable in try_calculate, fit, fit_with_statistics, build for any 64-bit sizes (MIR, both overflow profiles); every p outside (0,1) is the only documented panic. Thorough: nothing downstream of an arbitrary SVD result panics (2x2x1, all f64). Degenerate shapes (N < M, N = M, N = 1; vector/matrix, sequential/parallel, update histories) run through build/set_params/residuals/jacobian on the symbolic scalar: no panic on the explored paths for all values.",
              note="NOT decided: termination and panic-freedom inside nalgebra's SVD/inverse for finite input and inside the LM loop (its bound patience*(n+1) is read, not proved); shapes beyond 2x2 under Kani. Supplementary native grids (watchdog): NaN/inf/extremes at every input position on 3x2 and 5x3; shapes N=1..5 x P=0..3 x all four flavours x weights through build/jacobian/fit/fit_with_statistics/band."),
  "C11": dict(tech="symbolic execution of both flavours on a symbolic scalar inside rayon pools + SMT; MIR comparison of the two impls", engines=[R, M, K],
-             text="Problems built by the parallel constructors report, at construction and after an update, residuals/coefficients/Jacobian that are proved equal (terms, all values) to the sequential problem's and to the specification, inside rayon pools of 1, 2, 3, 4, 16 threads; a failing derivative gives None in both; into_sequential preserves every field (Kani) and the MIR bodies of the two LeastSquaresProblem impls (set_params, params, residuals, all closures incl. the Jacobian column closure) are identical modulo the const generic.",
-             note=REAL + "; the schedule quantifier is NOT enumerated (rayon cannot be driven symbolically, Kani has no threads): schedule independence rests on each column being written by one pure closure (identical closure MIR) plus identical terms under the schedules that occurred"),
+             text="Problems built by the parallel constructors report, at construction and after an update, residuals/coefficients/Jacobian that are proved equal (terms, all values) to the sequential problem's and to the specification, inside rayon pools of 1, 2, 3, 4, 16 threads, driven from outside the pool and from inside a worker of a dedicated pool (rayon splits the two differently: only the latter puts several columns into one job on small pools); complete fits through the real optimizer (sequential vs parallel constructor, vector and matrix API): same Ok/Err, termination, evaluation and model-call counts, and alpha-hat, coefficients, residuals, objective equal as terms; a failing derivative gives None in both; into_sequential preserves every field (Kani) and the MIR bodies of the two LeastSquaresProblem impls (set_params, params, residuals, all closures incl. the Jacobian column closure) are identical modulo the const generic.",
+             note=REAL + "; the schedule quantifier is NOT enumerated (rayon cannot be driven symbolically, Kani has no threads): schedule independence rests on each column being written by one pure closure (identical closure MIR) plus identical terms under the schedules that occurred (thread counts and both ways of entering the pool are varied; interleavings are not enumerated)"),
  "C06": dict(tech="relational symbolic execution (two real problems in one term arena) + SMT", engines=[R, K],
              text="Weighted problem vs. pre-scaled unweighted problem: both hand the same matrix to the SVD and report identical coefficients, residuals, Jacobian; reduced chi^2, weighted residuals and covariance of the statistics coincide; weights(1..1) == no weights; a zero weight removes the sample (real SVD, M=1).", note=REAL + "; 'along the whole fit' follows because LM only sees residuals()/jacobian(); the LM iteration itself is not executed symbolically"),
  "C07": dict(tech="relational symbolic execution + SMT", engines=[R, K],
-             text="S-column problem vs. S single-column problems (vector API): coefficient columns, residual blocks, Jacobian blocks identical; column permutation permutes them; dependent columns scale; 1-column MRHS == vector API.", note=REAL + "; not decided: the fitted alpha under permutation (LM iteration)"),
+             text="S-column problem vs. S single-column problems (vector API): coefficient columns, residual blocks, Jacobian blocks identical; column permutation permutes them; dependent columns scale; 1-column MRHS == vector API, also for complete fits through the real optimizer (same outcome, counts, alpha-hat, coefficients, residuals, objective as terms).", note=REAL + "; not decided: the fitted alpha under a permutation of several columns (equal only up to the optimizer's accuracy)"),
  "C09": dict(tech="symbolic execution with scripted model faults + SMT; facts per path", engines=[R, K, M],
              text="After a rejected set_params or a failing eval the problem exposes no residuals/coefficients/Jacobian; a failing derivative gives no Jacobian; after recovery the state equals a fresh problem's (terms proved equal). Through the real fit() on the symbolic scalar (symfit) with a model failure at call index k of the fit: Err, presence of residuals and coefficients consistent, whatever is present proved correct for the reported parameters. MIR: every failure path of fit/fit_with_statistics ends in Err carrying the problem; expect/unwrap panic paths are reported when the native sweep over every call index reproduces them.", note=REAL + "; fault positions: model.set_params, eval, each eval_partial_deriv, in build and in later updates; the LM loop's reaction (TerminationReason::User) is covered by Engine K (fabricated states) and by symfit (k in {0,1,2,4,7} quick, 0..13 thorough); supplementary native sweep: a failure at EVERY model call index of complete fits from several starting points"),
  "C10": dict(tech="symbolic execution of update histories + SMT; poisoning allocator", engines=[R, K],
@@ -39,7 +39,7 @@ CHECKS = {
  "C13": dict(tech="symbolic execution of try_calculate + SMT (fraction-free)", engines=[R, K],
              text="Cov*(H^T H) == sigma^2 I with H = W[Phi | D_k c] (ordering linear-then-nonlinear is implied), Cov symmetric, variance accessors == diagonal segments, corr_ij*sqrt(C_ii C_jj) == C_ij, for all values on the det != 0 path, (M+P) <= 4.", note=REAL + "; non-negativity of the diagonal and |corr| <= 1 are consequences not separately encoded"),
  "C14": dict(tech="symbolic execution of try_calculate + SMT", engines=[R, K],
-             text="unscaled band sigma_i^2 == j_i^T Cov j_i with j_i a row of the UN-weighted [Phi | D_k c] for all values.", note=REAL + "; the data flow radius_i = t((1+p)/2, dof)*sigma_i is Engine K's part (quantile function stubbed by a recording oracle; all f64 p, all f32 p; p outside (0,1) panics); the Student-t quantile itself (distrs crate) is trusted"),
+             text="unscaled band sigma_i^2 == j_i^T Cov j_i with j_i a row of the UN-weighted [Phi | D_k c] for all values.", note=REAL + "; the data flow radius_i = t((1+p)/2, dof)*sigma_i is Engine K's part (quantile function stubbed by a recording oracle; all f64 p, all f32 p; p outside (0,1) panics -- a satisfied 'returned normally' cover is a counterexample and is replayed natively on 0, -0, 1, 1+eps, negatives, NaN, +-inf); the Student-t quantile itself (distrs crate) is trusted"),
  "C15": dict(tech="real builder executed on symbolic scalars; EUF obligations for accepted models; bounded enumeration of call sequences for acceptance", engines=[R],
              text="REDUCED SCOPE: acceptance is decided by hash sets over concrete strings, which no available symbolic engine carries (measured). A reference predicate written from the property statement classifies builder call sequences; ~50 hand-written sequences (every error kind, sticky errors, any order of x/initial-guess) and a systematic enumeration (every sequence of 1..3 functions over ordered subsets of 2..3 model parameters plus single-defect mutants: 229 quick / 1281 thorough) are run through the real builder: accepted iff valid, error kind among the defects present; accepted models are then decided symbolically as in C16.", note="acceptance part is an enumeration, not a solver verdict; names/arity clauses outside the enumerated sequences are not decided"),
  "C16": dict(tech="symbolic execution with uninterpreted basis functions + SMT (EUF)", engines=[R, K],
